@@ -253,6 +253,25 @@ let dispatch (op : string) (t : toks) : string =
         | ObMids l -> "mids " ^ out_list (fun (m, f) -> out_bytes m ^ ":" ^ out_bool f) l
         | ObAnswer a -> "ans:" ^ String.make 1 (Char.chr (int_of_n a))
         | ObFatal -> "fatal") (run mbox_empty ops))
+  | "crashcalls" | "crashstate" ->
+      let get_fop t = (match next t with
+        | "store" -> let f = get_int t in let name = get_bytes t in let data = get_bytes t in FStore (n_of_int f, name, data)
+        | "setsent" -> FSetSent (get_bytes t)
+        | s -> raise (Bad ("fop " ^ s))) in
+      let show_path (f, n) = out_int (int_of_n f) ^ ":" ^ out_bytes n in
+      if op = "crashcalls" then
+        String.concat " | " (List.map (fun c -> match c with
+          | SOpenTrunc p -> "open " ^ show_path p
+          | SWrite (p, d) -> "write " ^ show_path p ^ " " ^ string_of_int (List.length d)
+          | SClose p -> "close " ^ show_path p
+          | SRename (a, b) -> "rename " ^ show_path a ^ " " ^ show_path b) (calls_of (get_fop t)))
+      else begin
+        let fs = get_list t (fun t -> let f = get_int t in let n = get_bytes t in let c = get_bytes t in ((n_of_int f, n), c)) in
+        let fop = get_fop t in
+        let k = get_int t in let j = get_int t in
+        let fs' = crash_state fs (calls_of fop) (nat_of_int k) (nat_of_int j) in
+        out_list (fun ((f, n), c) -> out_int (int_of_n f) ^ " " ^ out_bytes n ^ " " ^ out_bytes c) fs'
+      end
   | _ -> raise Not_found
 
 let () =
